@@ -54,6 +54,9 @@ def compare_values(it, op, a, b):
             return op == '!='
         r = And(*[_as_bool(compare_values(it, '==', a[k], b[k])) for k in a]) if a else True
         return r if op == '==' else (Not(r) if not isinstance(r, bool) else not r)
+    from .sstr import SStr
+    if isinstance(a, SStr) or isinstance(b, SStr):
+        return a._compare(op, b) if isinstance(a, SStr) else b._rcompare(op, a)
     if isinstance(a, (Obj, ExcVal, ModelValue, MapBox)) or isinstance(b, (Obj, ExcVal, ModelValue, MapBox)):
         if op == '==':
             return a is b
@@ -70,6 +73,9 @@ def _as_bool(v):
 def contains(it, container, x):
     c = it.ctx
     container = unflex(container)
+    if type(container).__name__ == 'SStr':
+        from . import sstr
+        return sstr.contains_char(container, x)
     if isinstance(container, IdSet):
         rs = [compare_values(it, '==', x, v) for v in container.items]
         return Or(*rs) if rs else False
@@ -80,13 +86,13 @@ def contains(it, container, x):
     if isinstance(container, MapBox):
         return container.m.has(x)
     if isinstance(container, (list, tuple)):
-        if isinstance(x, Sym) or not _conc(container):
+        if isinstance(x, (Sym, ModelValue)) or not _conc(container):
             rs = [compare_values(it, '==', x, v) for v in container]
             return Or(*rs) if rs else False
         return _native(operator.contains, container, x)
     if isinstance(container, (dict, set, frozenset)) or isinstance(container, type({}.keys())):
         keys = list(container.keys()) if isinstance(container, dict) else list(container)
-        if isinstance(x, Sym):
+        if isinstance(x, (Sym, ModelValue)) and not isinstance(x, (MapBox,)) and type(x).__name__ in ('Sym', 'SStr'):
             rs = [compare_values(it, '==', x, k) for k in keys]
             return Or(*rs) if rs else False
         if isinstance(x, (Obj, ModelValue)):
@@ -112,7 +118,7 @@ def getitem(it, o, k):
     c = it.ctx
     o = unflex(o)
     if isinstance(o, dict):
-        if isinstance(k, Sym):
+        if isinstance(k, Sym) or type(k).__name__ == 'SStr':
             for key in list(o.keys()):
                 if c.branch(compare_values(it, '==', k, key)):
                     return o[key]
@@ -309,7 +315,7 @@ def _dict_method(it, d, name, args, kwargs):
     if name == 'get':
         k = args[0]
         default = args[1] if len(args) > 1 else kwargs.get('default', None)
-        if isinstance(k, Sym):
+        if isinstance(k, Sym) or type(k).__name__ == 'SStr':
             for key in list(d.keys()):
                 if c.branch(compare_values(it, '==', k, key)):
                     return d[key]
@@ -510,6 +516,8 @@ def _str_method_symargs(it, s, name, args, kwargs):
 
 # ------------------------------------------------------------------------------ builtins
 def b_len(it, v):
+    if type(v).__name__ == 'SStr':
+        raise OutsideSubset("len() of a structured string")
     if isinstance(v, IdSet):
         return len(v.items)
     if isinstance(v, GuardedList):
@@ -528,6 +536,8 @@ def b_len(it, v):
 
 
 def b_isinstance(it, v, t):
+    if type(v).__name__ == 'SStr':
+        v = 'a structured string is a str'
     ts = t if isinstance(t, tuple) else (t,)
     flat = []
     for x in ts:
@@ -558,6 +568,13 @@ def b_isinstance(it, v, t):
 
 
 def b_int(it, v=0, *rest):
+    from .sstr import SStr, Num
+    if isinstance(v, SStr):
+        if len(v.segs) == 1 and isinstance(v.segs[0], Num):
+            return v.segs[0].n
+        if v.is_literal():
+            return _native(int, v.literal())
+        raise OutsideSubset("int() of a structured string that is not a numeral")
     if rest:
         if _conc(v) and _conc(rest):
             return _native(int, v, *rest)
@@ -602,6 +619,8 @@ def b_float(it, v=0.0):
 
 
 def b_str(it, v=''):
+    if type(v).__name__ == 'SStr':
+        return v
     if isinstance(v, Sym):
         return wrap(strings.to_str(v))
     if isinstance(v, (ModelValue, Obj, ExcVal)):
@@ -838,9 +857,23 @@ def b_deepcopy(it, v, memo=None):
 
 
 def b_path_join(it, a, *ps):
-    """posixpath.join over z3 strings"""
+    """posixpath.join over z3 strings / structured strings"""
     if _conc(a) and all(_conc(p) for p in ps):
         return _native(os.path.join, a, *ps)
+    from . import sstr
+    if sstr.has_sstr([a] + list(ps)):
+        acc = sstr.lift(a)
+        for p in ps:
+            P = sstr.lift(p)
+            if P.m_startswith(it, '/'):
+                acc = P
+            elif not acc.segs or (isinstance(acc.segs[-1], sstr.Lit) and acc.segs[-1].text.endswith('/')):
+                acc = sstr.SStr(acc.segs + P.segs)
+            elif isinstance(acc.segs[-1], sstr.Lit) or '/' in getattr(acc.segs[-1], 'excludes', ()) or isinstance(acc.segs[-1], sstr.Num):
+                acc = sstr.SStr(acc.segs + [sstr.Lit('/')] + P.segs)
+            else:
+                raise OutsideSubset("os.path.join: %r may end with '/'" % acc)
+        return sstr.simplify(acc)
     acc = a
     for p in ps:
         for x in (acc, p):
@@ -852,6 +885,15 @@ def b_path_join(it, a, *ps):
                          z3.If(z3.Or(ea == z3.StringVal(''), z3.SuffixOf(sep, ea)), z3.Concat(ea, ep),
                                z3.Concat(ea, sep, ep))))
     return acc
+
+
+def b_path_split(it, p):
+    from . import sstr
+    if isinstance(p, sstr.SStr):
+        return sstr.path_split(p)
+    if _conc(p):
+        return _native(os.path.split, p)
+    raise OutsideSubset("os.path.split of a flat symbolic string")
 
 
 def b_print(it, *a, **k):
@@ -880,7 +922,7 @@ BUILTINS = {
     dict: b_dict, set: b_set, sorted: b_sorted, enumerate: b_enumerate, zip: b_zip, any: b_any,
     all: b_all, reversed: b_reversed, map: b_map, filter: b_filter, getattr: b_getattr,
     hasattr: b_hasattr, type: b_type, functools.reduce: b_reduce, operator.add: b_opadd,
-    copy.deepcopy: b_deepcopy, print: b_print, id: b_id, os.path.join: b_path_join,
+    copy.deepcopy: b_deepcopy, print: b_print, id: b_id, os.path.join: b_path_join, os.path.split: b_path_split,
 }
 
 _PURE_MODULE_PREFIXES = ('posixpath', 'os.path', 're', 'copy', 'pprint', 'json', 'math', 'string', 'textwrap')
